@@ -36,10 +36,15 @@ var (
 	budget   = flag.Duration("budget", 0, "override internal time budget")
 	cpuprof  = flag.String("cpuprofile", "", "write a CPU profile of this worker")
 	resume   = flag.Bool("resume", false, "continue from the checkpoint of an earlier attempt (internal)")
+	racepass = flag.Bool("racepass", false, "run the free-running bodies of C17 (race binary)")
 )
 
 func main() {
 	flag.Parse()
+	if *racepass {
+		checks.C17RacePass()
+		return
+	}
 	c := checks.Registry[*prop]
 	if c == nil {
 		fmt.Fprintf(os.Stderr, "unknown property %q\n", *prop)
